@@ -158,6 +158,48 @@ mut("c18-only-first-aux-kept-for-big-buckets", ["C18"], [("star/test-utils/src/l
     "      aux: splits.into_iter().map(|val| val.1).collect(),",
     "      aux: {\n        let n = splits.len();\n        splits.into_iter().map(|val| val.1).take(if n > 6 { 6 } else { n }).collect()\n      },")])
 
+
+# ---- property-preserving changes: NO check may fire (false-alarm guard) ----
+def benign(name, run, edits, note=""):
+    M.append(dict(name="benign:" + name, props=[], run=run, edits=edits, note=note, benign=True))
+
+benign("labels-renamed-consistently", ["C01", "C02", "C03", "C04", "C16", "C17", "C18"], [
+    ("star/src/lib.rs", '"star_derive_randoms"', '"star_derive_randoms_v2"'),
+    ("star/src/lib.rs", '"star_sample_local"', '"star_sample_local_v2"'),
+    ("star/src/lib.rs", '"star_derive_ske_key"', '"star_derive_ske_key_v2"')],
+    note="every Strobe label of the STAR layer renamed: all derived values change, every relation stays")
+benign("adss-labels-renamed", ["C01", "C02", "C05", "C16", "C08"], [
+    ("adss/src/lib.rs", 'Strobe::new(b"adss encrypt", SecParam::B128);\n    key.key(&K, false);\n\n    // C is', 'Strobe::new(b"adss encrypt v2", SecParam::B128);\n    key.key(&K, false);\n\n    // C is'),
+    ("adss/src/lib.rs", 'Strobe::new(b"adss encrypt", SecParam::B128);\n  key.key(&K, false);\n\n  // M is', 'Strobe::new(b"adss encrypt v2", SecParam::B128);\n  key.key(&K, false);\n\n  // M is')])
+benign("sharks-dedup-with-vec-scan", ["C01", "C06", "C05", "C09", "C16"], [("sharks/src/lib.rs",
+    "} else if keys.insert(share.x.to_repr().as_ref().to_vec()) {\n        values.push(share.clone());\n      }",
+    "} else if !values.iter().any(|v| v.x == share.x) {\n        keys.insert(share.x.to_repr().as_ref().to_vec());\n        values.push(share.clone());\n      }")])
+benign("ggm-new-prefixes-inserted-in-front", ["C10", "C11", "C14", "C12"], [("ppoprf/src/ggm.rs",
+    "        self.prefixes.extend(new_prefixes);", "        for p in new_prefixes.into_iter().rev() {\n          self.prefixes.insert(0, p);\n        }")],
+    note="internal order of retained nodes changes; prefixes are disjoint so lookups are unaffected")
+benign("message-decoder-rejects-trailing-bytes", ["C08", "C09", "C01"], [("star/src/lib.rs",
+    "    let tag = load_bytes(slice)?;\n\n    Some(Message {", "    let tag = load_bytes(slice)?;\n    if slice.len() != 4 + tag.len() {\n      return None;\n    }\n\n    Some(Message {")],
+    note="stricter: trailing bytes after the tag chunk refused (policy left open by the property)")
+benign("share-decoder-tolerates-trailing-bytes-after-mac", ["C08", "C09", "C05"], [("adss/src/lib.rs",
+    "    let j: [u8; MAC_LENGTH] = slice.try_into().ok()?;", "    if slice.len() < MAC_LENGTH {\n      return None;\n    }\n    let j: [u8; MAC_LENGTH] = slice[..MAC_LENGTH].try_into().ok()?;")],
+    note="more lenient: bytes after J ignored (policy left open); re-encoding drops them")
+benign("sharks-decoder-rejects-x-zero", ["C08", "C09", "C05", "C06"], [("sharks/src/share_ff.rs",
+    "    let y_bytes = &s[FIELD_ELEMENT_LEN..];", "    let x: Fp = x;\n    if x.is_zero_vartime() {\n      return Err(\"the evaluation point must not be zero\");\n    }\n    let y_bytes = &s[FIELD_ELEMENT_LEN..];")],
+    note="hardening: a share at x = 0 is refused at decode")
+benign("server-refuses-puncture-of-unregistered-tag", ["C14", "C11", "C09"], [("ppoprf/src/ppoprf.rs",
+    "  pub fn puncture(&mut self, md: u8) -> Result<(), PPRFError> {\n    self.pprf.puncture(&[md])",
+    "  pub fn puncture(&mut self, md: u8) -> Result<(), PPRFError> {\n    if self.public_key.get(md).is_none() {\n      return Err(PPRFError::BadTag { md });\n    }\n    self.pprf.puncture(&[md])")])
+benign("aggregation-output-sorted", ["C18"], [("star/test-utils/src/lib.rs",
+    "    collected_messages.values().cloned().collect()", "    let mut keys: Vec<&String> = collected_messages.keys().collect();\n    keys.sort();\n    keys.into_iter().map(|k| collected_messages[k].clone()).collect()")])
+benign("second-puncture-reports-already-punctured", ["C10", "C11", "C14"], [("ppoprf/src/ggm.rs",
+    "    let bv = bvcast_u8_to_usize(&BitVec::<_, Lsb0>::from_slice(input));\n    let pfx = self.key.find_prefix(&bv)?;",
+    "    let bv = bvcast_u8_to_usize(&BitVec::<_, Lsb0>::from_slice(input));\n    if self.key.punctured.iter().any(|p| p.bits == bv) {\n      return Err(PPRFError::AlreadyPunctured);\n    }\n    let pfx = self.key.find_prefix(&bv)?;")],
+    note="another error variant for the second puncture")
+benign("verify-rejects-identity-points-early", ["C13", "C09", "C12", "C15"], [("ppoprf/src/ppoprf.rs",
+    "        (Some(proof), Some(output), Some(input)) => (proof, output, input),",
+    "        (Some(proof), Some(output), Some(input)) if output != RistrettoPoint::identity() && input != RistrettoPoint::identity() => (proof, output, input),")],
+    note="hardening: identity input/output points refused before the proof equation")
+
 def setup():
     os.makedirs(SCR, exist_ok=True)
     if not os.path.isdir(REPO):
@@ -227,7 +269,7 @@ def main():
             r["repo_tests_pass"] = ("FAILED" not in out and "failed" not in out.replace("0 failed", ""))
             r["repo_tests"] = out[-600:]
         det = {}
-        for p in (ALL if allprops else m["props"]):
+        for p in (ALL if allprops else m.get("run", m["props"])):
             t0 = time.time()
             rc, out = sh(f"{HARN}/target/release/verif check {p} --tier quick", cwd=HARN, env={"VERIF_ROOT": f"{SCR}/verif"}, timeout=1800)
             line = [l for l in out.splitlines() if "sub-check" in l]
@@ -235,7 +277,11 @@ def main():
         r["detected"] = {p: d for p, d in det.items()}
         r["caught_by"] = [p for p, d in det.items() if d["exit"] == 1]
         results[m["name"]] = r
-        print(m["name"], "caught by", r["caught_by"], "expected", m["props"], "" if (set(m["props"]) & set(r["caught_by"]) or not m["props"]) else "   <<<<<< MISSED", flush=True)
+        if m.get("benign"):
+            r["benign"] = True
+            print(m["name"], "checks run", m.get("run"), "fired:", r["caught_by"], "   <<<<<< FALSE ALARM" if r["caught_by"] else "(silent, as it must be)", flush=True)
+        else:
+            print(m["name"], "caught by", r["caught_by"], "expected", m["props"], "" if (set(m["props"]) & set(r["caught_by"]) or not m["props"]) else "   <<<<<< MISSED", flush=True)
         json.dump(results, open(resf, "w"), indent=1)
     sh("git checkout -- .", cwd=REPO)
     if "--keep" not in sys.argv:
